@@ -35,15 +35,22 @@ pub mod oracle {
         // mode takes the *low* word of next_u64 first?  No: it calls next_u32().
         // Our next_u32 returns the upper half of one cell, see below.
         let hi = (v >> 32) as u32;
-        unsafe {
-            let mut r: u32 = 2;
-            while r <= LEMIRE_MAX {
-                let lo = hi.wrapping_mul(r);
-                let thresh = r.wrapping_neg() % r;
-                kani::assume(lo >= thresh);
-                r += 1;
-            }
+        // unrolled (no loop: harness unwind bounds must not depend on the model)
+        macro_rules! lemire {
+            ($r:expr) => {
+                if unsafe { LEMIRE_MAX } >= $r {
+                    let r: u32 = $r;
+                    kani::assume(hi.wrapping_mul(r) >= r.wrapping_neg() % r);
+                }
+            };
         }
+        lemire!(2);
+        lemire!(3);
+        lemire!(4);
+        lemire!(5);
+        lemire!(6);
+        lemire!(7);
+        lemire!(8);
         v
     }
 
@@ -59,18 +66,31 @@ pub mod oracle {
 
     pub fn stream(kind: u8, key: [u64; 4]) -> usize {
         unsafe {
-            let mut i = 0;
-            while i < NUSED {
-                if KIND[i] == kind
-                    && KEYS[i][0] == key[0]
-                    && KEYS[i][1] == key[1]
-                    && KEYS[i][2] == key[2]
-                    && KEYS[i][3] == key[3]
-                {
-                    return i;
-                }
-                i += 1;
+            macro_rules! probe {
+                ($i:expr) => {
+                    if $i < NUSED
+                        && KIND[$i] == kind
+                        && KEYS[$i][0] == key[0]
+                        && KEYS[$i][1] == key[1]
+                        && KEYS[$i][2] == key[2]
+                        && KEYS[$i][3] == key[3]
+                    {
+                        return $i;
+                    }
+                };
             }
+            probe!(0);
+            probe!(1);
+            probe!(2);
+            probe!(3);
+            probe!(4);
+            probe!(5);
+            probe!(6);
+            probe!(7);
+            probe!(8);
+            probe!(9);
+            probe!(10);
+            probe!(11);
             assert!(NUSED < NS, "chacha oracle model: too many streams for this harness");
             let id = NUSED;
             KIND[id] = kind;
@@ -85,10 +105,11 @@ pub mod oracle {
         unsafe {
             assert!(id < NUSED, "chacha oracle model: bad stream id");
             assert!(ctr < ND, "chacha oracle model: too many draws for this harness");
-            while FILLED[id] <= ctr {
-                let c = FILLED[id];
-                DRAWS[id][c] = fresh();
-                FILLED[id] = c + 1;
+            // cells are created strictly in order (no holes, no loop)
+            assert!(ctr <= FILLED[id], "oracle model: draws must be consumed in order");
+            if FILLED[id] == ctr {
+                DRAWS[id][ctr] = fresh();
+                FILLED[id] = ctr + 1;
                 NDRAWN += 1;
             }
             DRAWS[id][ctr]
@@ -123,18 +144,8 @@ macro_rules! chacha_model {
         impl SeedableRng for $rng {
             type Seed = [u8; 32];
             fn from_seed(seed: [u8; 32]) -> Self {
-                let mut key = [0u64; 4];
-                let mut w = 0;
-                while w < 4 {
-                    let mut b = [0u8; 8];
-                    let mut i = 0;
-                    while i < 8 {
-                        b[i] = seed[8 * w + i];
-                        i += 1;
-                    }
-                    key[w] = u64::from_le_bytes(b);
-                    w += 1;
-                }
+                let w = |o: usize| u64::from_le_bytes([seed[o], seed[o + 1], seed[o + 2], seed[o + 3], seed[o + 4], seed[o + 5], seed[o + 6], seed[o + 7]]);
+        let key = [w(0), w(8), w(16), w(24)];
                 $rng {
                     id: oracle::stream($kind, key),
                     ctr: 0,
